@@ -368,7 +368,10 @@ def cover_style(ck, F):
           "get_default_num_fmt_id uses %s, get_num_fmt uses %s: the id<->code lookups must share one table" % (sorted(ca), sorted(cg)), a.file, a.line,
           sample={"id_lookup": sorted(ca), "code_lookup": sorted(cg)})
     # first-match shape: get_default_num_fmt_id returns inside the loop on equality
-    eqs = [bi for bi, t in a.calls() if (a.callee_q(t) or "").rsplit("::", 1)[-1] == "eq"]
+    # (the loop may be spelled `iter().position(|f| f == code)`: the equality test then sits in the closure, and position /
+    #  find return the first match by definition)
+    from rules_struct import unit_bodies as _ub
+    eqs = [bi for bb in _ub(F, a) for bi, t in bb.calls() if (bb.callee_q(t) or "").rsplit("::", 1)[-1] == "eq"]
     ck.ob(R, "get_default_num_fmt_id|first-match", len(eqs) == 1, "expected one equality test in a first-match loop", a.file, a.line)
 
 
